@@ -4,6 +4,8 @@ import (
 	"fmt"
 	"strings"
 	"testing"
+	"time"
+	"verifharness/cli"
 
 	"pgregory.net/rapid"
 
@@ -18,6 +20,27 @@ type C05Case struct {
 	// Variant: "" = plain comparison; "flags-in-include" = one included file carries a flags line
 	Variant string   `json:"variant,omitempty"`
 	Lab     []string `json:"labels,omitempty"`
+	// Global: global arguments of the run with the include directives (log level): what is included must not depend on them
+	Global []string `json:"global,omitempty"`
+	// Linked: this include file (path below regex-assembly/) is a symbolic link to a file kept elsewhere
+	Linked string `json:"linked,omitempty"`
+}
+
+// runC05 generates from the program; one include file may be a symbolic link, global arguments may be given.
+func runC05(p *ragen.Program, global []string, linked string) cli.Result {
+	sb := cli.NewSandbox("c05")
+	defer sb.Close()
+	tree := cli.Tree(p.Tree())
+	if content, ok := tree["regex-assembly/"+linked]; ok && linked != "" {
+		base := linked[strings.LastIndexByte(linked, '/')+1:]
+		tree["regex-assembly/shared-lists/"+base] = content
+		tree["regex-assembly/"+linked] = cli.SymlinkPrefix + "../shared-lists/" + base
+	}
+	if err := tree.Write(sb.Path("crs")); err != nil {
+		panic(err)
+	}
+	args := append(append([]string{}, global...), "-d", sb.Path("crs"), "regex", "generate", "-")
+	return cli.Run(cli.Opt{Dir: sb.Root, Stdin: p.MainText(), Timeout: 30 * time.Second}, args...)
 }
 
 func genC05(t *rapid.T) C05Case {
@@ -67,6 +90,24 @@ func genC05(t *rapid.T) C05Case {
 				}
 			}
 		}
+	}
+	// a word list of real size (the parsed text is well above 1 KiB)
+	if rapid.IntRange(0, 5).Draw(t, "biglist") == 0 {
+		var big []ragen.Line
+		for i := 0; i < 160; i++ {
+			big = append(big, ragen.Line{K: ragen.KEntry, T: fmt.Sprintf("word%03dx", i)})
+		}
+		g.Prog.Files["include/biglist.ra"] = big
+		g.Prog.Main = append(g.Prog.Main, ragen.Line{K: ragen.KInclude, File: "biglist"})
+		g.Labels["include-above-1KiB"] = true
+	}
+	c.Global = rapid.SampledFrom([][]string{nil, nil, nil, {"-l", "trace"}, {"-l", "debug"}, {"--log-level", "trace"}}).Draw(t, "global")
+	if len(c.Global) > 0 {
+		g.Labels["log-level-given"] = true
+	}
+	if r := reachable(g.Prog); len(r) > 0 && rapid.IntRange(0, 3).Draw(t, "linked") == 0 {
+		c.Linked = rapid.SampledFrom(r).Draw(t, "linkedfile")
+		g.Labels["include-file-is-a-symbolic-link"] = true
 	}
 	c.Lab = labelsOf(g.Labels)
 	return c
@@ -150,8 +191,9 @@ func checkC05(c C05Case) Outcome {
 		out.HarnessError = "cannot inline: " + err.Error()
 		return out
 	}
-	a := generate(prog)
+	a := runC05(prog, c.Global, c.Linked)
 	b := generate(inl)
+	out.Detail["global"], out.Detail["linked"] = c.Global, c.Linked
 	out.Detail["program"] = prog.MainText()
 	out.Detail["files"] = prog.Tree()
 	out.Detail["inlined"] = inl.MainText()
